@@ -56,14 +56,19 @@ EXTRA_TEXT = {
  "C03": " Added: the adapter index is part of the pipeline model (Matchable.indexed, Regroup.lean); indexed_pipeline_marked_slice states the slice property for the default, index-using "
         "pipeline; half of the correspondence runs use the index.",
  "C08": " Added: _split_adapters / _regroup_into_indexed_adapters modelled (Regroup.lean): regroup_noop, regroup_entries, regroup_wf, split_positions_perm, regroup_origin_perm "
-        "(regrouping refers to every given adapter exactly once); the index object is a constructor of the pipeline's Matchable, so pipeline-level correspondence runs in index mode.",
- "C05": " Added: PairedEndRenamer keeps the ids of the mates matched (paired_rename_keeps_ids_matched); --pair-adapters ranks with repeated sequences; interleaved untrimmed stream.",
+        "(regrouping refers to every given adapter exactly once); the index object is a constructor of the pipeline's Matchable, so pipeline-level correspondence runs in index mode. regroup_names / regroup_every_adapter_named: the name table after regrouping carries, row by row, the names of the given adapters; function-level correspondence of _regroup_into_indexed_adapters (driver op regroup).",
+ "C05": " Added: PairedEndRenamer keeps the ids of the mates matched (paired_rename_keeps_ids_matched); --pair-adapters ranks with repeated sequences; interleaved untrimmed stream. Translator gen_pairfilter observes the pair decision of the real program for every filter x --pair-filter x adapter sides on probe pairs; generated_pair_decisions_documented proves the table equal to the documented combination, filter_modes_documented proves the same of every filter step of the assembly model.",
  "C06": " Added: Statistics.__iadd__ and the per-adapter __iadd__ methods are modelled concretely (StatsMerge.lean) and proved to add: merging the statistics of the chunks of any "
         "chunking, in any order, gives the figures of the whole run (merged_statistics_of_any_chunking, merged_statistics_order_independent, statistics_merge_comm_assoc, "
         "merged_adapter_statistics), which discharges the monoid hypothesis for cutadapt's counters; tied to the code by the driver ops statsmerge/adaptermerge against `a += b` on real Statistics objects.",
  "C07": " Since fix 6bb8dc0 (short reads of adapters that search both overlap directions bypass the finder) prefilter_safe_partial holds for every ASCII read without NUL; one known finding remains (NUL byte vs N wildcard).",
  "C10": " Added: PairedEndRenamer (rn, r1./r2. fields, id checks) and tokenize_braces are modelled; paired_rename_spec, paired_rename_placeholders, tokenize_sound; stepwise oracle "
-        "(the run with all options equals a chain of one run per documented stage).",
+        "(the run with all options equals a chain of one run per documented stage). Translator observes the order of -u/-U cuts on probe reads (generated_cuts_in_given_order, generated_cuts_are_model).",
+ "C11": " Added: translator gen_filterorder (a probe read to which two filters apply, every pair, both option orders: category and redirect file) with generated_first_applicable_filter_wins; two-stage reference for 'filters see the fully modified read'.",
+ "C14": " Added: the definitions are also checked through the command line (--poly-a, --trim-n, --max-n, --max-ee, --max-aer on mixed-case reads, every --action, 1 and 2 cores).",
+ "C16": " Added: oracle for paired --revcomp (total score over both reads, as given vs swapped).",
+ "C19": " Added: translator gen_outfmt observes the format written for a menu of file names x cores x input format; generated_output_formats proves the table equal to the model's rule (formatOfName = outputFormat).",
+ "C20": " Added: R2 adapter statistics of paired runs with worker processes against a single-end tally of the R2 reads.",
 }
 TECH = {"C07": "Lean 4 proof (bit-parallel invariant, pigeonhole over edit scripts) + correspondence; partial: NUL bytes in reads are outside the theorem (one known finding)"}
 for k, v in EXTRA_TEXT.items():
